@@ -65,6 +65,7 @@ def sig(a, fn):
     if a[0] == "cmp":
         op, l, r = a[1], a[2], a[3]
         lv, rv = cval(l), cval(r)
+        l0, r0 = l, r
         # normalise strict comparisons against integer constants to non-strict
         if op == "Lt" and lv is not None:
             op, l = "Le", ("c", lv + 1, None, None)
@@ -73,6 +74,10 @@ def sig(a, fn):
         s.rel = op
         n1, c1, o1, k1, _ = _collect(l, fn)
         n2, c2, o2, k2, _ = _collect(r, fn)
+        if l is not l0:
+            n1 = n1 | _collect(l0, fn)[0]   # keep the identity of a named constant (e.g. ENOUGH_LENS)
+        if r is not r0:
+            n2 = n2 | _collect(r0, fn)[0]
         s.names, s.consts, s.ops, s.calls = n1 | n2, c1 | c2, o1 | o2, k1 | k2
         s.lo_names, s.hi_names = frozenset(n1), frozenset(n2)
         s.lo_consts, s.hi_consts = frozenset(c1), frozenset(c2)
